@@ -151,6 +151,10 @@ def refOracle (op : List String) (o : Obs) (engine : String) : Option Verdict :=
   let want := if expect == "ok" then "ok:Int:0" else
     "user:" ++ (if expect == "invalidated" then "invalidated-reference" else expect)
   if o.out == want && uses == tags then none
+  -- references to non-resource values nested in a moved resource are not invalidated by the unchanged
+  -- tree: the use succeeds, reads an emptied container, or fails with another user error
+  else if ((field op "forms").splitOn ",").contains "ref-nested-struct" then
+    some (.violation "nested-non-resource-reference-not-invalidated" ("outcome " ++ want ++ " (" ++ engine ++ ")") [])
   else if expect != "ok" && o.out.startsWith "ok:" then
     some (.violation "stale-reference-usable" ("outcome " ++ want ++ " (" ++ engine ++ ")") [])
   else if o.out == "user:invalidated-reference" && (expect == "ok" || uses.length < tags.length) then
@@ -205,7 +209,7 @@ def judge (op : List String) (go : String) : Verdict :=
       match (streamOracle stream op i "interp").orElse (fun _ => streamOracle stream op v "vm") with
       | some verdict => verdict
       | none =>
-      if sx.startsWith "oof:" || gen == "wild" || gen == "casts" then
+      if sx.startsWith "oof:" || gen == "wild" || gen == "casts" || tags0.contains "ref-nested-struct" then
         (if stream == "nointernal" then .ok ("!nt" :: "oracle-only" :: ("out-" ++ (i.out.takeWhile (· ≠ ':')).toString) :: tags0)
          else .skip ("out-of-fragment:" ++ (sx.drop 4).toString))
       else if i.out.startsWith "user:computation-limit" then .skip "computation-limit"
